@@ -44,11 +44,17 @@ func WarpTargetFullType(targetType string) (string, string) {
 
 	if pureTargetType != "" {
 		for _, imp := range imports {
-			if strings.HasSuffix(imp, pureTargetType) {
+			if imp == pureTargetType || strings.HasSuffix(imp, "."+pureTargetType) {
 				callType = "chain"
 				return imp, callType
 			}
 		}
+	}
+
+	// a type of the own package hides a type of the same name in another package
+	if _, ok := identMap[currentPkg+"."+pureTargetType]; ok {
+		callType = "same package"
+		return currentPkg + "." + pureTargetType, callType
 	}
 
 	for _, clz := range clzs {
